@@ -232,6 +232,61 @@ def handle (toks : List String) : String :=
         | .panic => "panic"
       | none => "bad-request"
     | _, _, _, _, _, _ => "bad-request"
+  | "reuse" :: fs :: var :: chunk :: init :: kind :: args =>
+    match parseFs fs, parseVariant var, chunk.toNat?, (if var.length == 3 then some () else none) with
+    | some fs, some v, some n, some _ =>
+      match parseInit fs n init with
+      | some f =>
+        if hangs f then "hang" else
+        let fin : Res FImg → (FImg → String) → String := fun r k =>
+          match r with | .ok g => k g | .err => "err" | .panic => "panic"
+        match kind, args with
+        | "bin", [da, aa, db, ab] =>
+          match parseData da, parseAddr aa, parseData db, parseAddr ab with
+          | some da, some aa, some db, some ab =>
+            match packBin v fs f da aa [] with
+            | .ok g1 => fin (packBin v fs g1 db ab []) (fun g =>
+                s!"ok {imgDigest g} la={optNat (loadAddr fs g)} un={resBytes (unpackBin fs g)}")
+            | _ => "errA"
+          | _, _, _, _ => "bad-request"
+        | "raw", [da, db] =>
+          match parseData da, parseData db with
+          | some da, some db =>
+            match packRaw v fs f da with
+            | .ok g1 => fin (packRaw v fs g1 db) (fun g =>
+                s!"ok {imgDigest g} un={resBytes (unpackRaw fs g false)} seq={digest (sequence g)}")
+            | _ => "errA"
+          | _, _ => "bad-request"
+        | "txt", [ta, tb] =>
+          match ofHex ta, ofHex tb with
+          | some ta, some tb =>
+            match packTxt v fs f ta with
+            | .ok g1 => fin (packTxt v fs g1 tb) (fun g => s!"ok {imgDigest g} un={resBytes (unpackTxt fs g)}")
+            | _ => "errA"
+          | _, _ => "bad-request"
+        | "tok", [l, da, db] =>
+          match parseLang l, parseData da, parseData db with
+          | some l, some da, some db =>
+            match packTok v fs f da l [] with
+            | .ok g1 => fin (packTok v fs g1 db l []) (fun g => s!"ok {imgDigest g} un={resBytes (unpackTok fs g)}")
+            | _ => "errA"
+          | _, _, _ => "bad-request"
+        | "rec", [gv, la, ra, lb, rb] =>
+          match (if gv == "s" then some RecGather.strict else if gv == "z" then some RecGather.zeroFill else none),
+                la.toNat?, parsePairs ra, lb.toNat?, parsePairs rb with
+          | some gv, some la, some ra, some lb, some rb =>
+            match packRec fs f la ra with
+            | .ok g1 => fin (packRec fs g1 lb rb) (fun g =>
+                let un := match unpackRec gv fs g (some lb) with
+                  | .ok m => "ok:" ++ renderPairs m
+                  | .err => "err"
+                  | .panic => "panic"
+                s!"ok {imgDigest g} un={un}")
+            | _ => "errA"
+          | _, _, _, _, _ => "bad-request"
+        | _, _ => "bad-request"
+      | none => "bad-request"
+    | _, _, _, _ => "bad-request"
   | ["fimg2json", jc, ver, fsn, cl, eof, typ, aux, acc, accd, cr, md, vs, mv, path, chunks] =>
     match ofHex ver, ofHex fsn, cl.toNat?, ofHex eof, ofHex typ, ofHex aux, ofHex acc with
     | some ver, some fsn, some cl, some eof, some typ, some aux, some acc =>
